@@ -90,10 +90,10 @@ func init() {
 
 	// ---- C03: the run result is the one the workflow's meaning prescribes ----
 	c03 := []*ir.Profile{
-		{Name: "c03-multi", StageRefs: 20, PSimple: 25, MinSteps: 1, MaxSteps: 5, Durs: someDurs, Modes: allBad, PBad: 35, PDeployFail: 15, PDisabled: 25, PWaitFor: 30, MaxOutputs: 3, PErrPathRef: 15, DeepExpr: true},
+		{Name: "c03-multi", PStopFalse: 15, StageRefs: 20, PSimple: 25, MinSteps: 1, MaxSteps: 5, Durs: someDurs, Modes: allBad, PBad: 35, PDeployFail: 15, PDisabled: 25, PWaitFor: 30, MaxOutputs: 3, PErrPathRef: 15, DeepExpr: true},
 		{Name: "c03-errout", MinSteps: 1, MaxSteps: 4, Durs: someDurs, Modes: []string{"err", "crash", "panic"}, PBad: 60, PDeployFail: 25, PDisabled: 30, ErrOutput: true, MaxOutputs: 3},
 		{Name: "c03-tags", MinSteps: 2, MaxSteps: 4, Durs: someDurs, Tags: true, Modes: []string{"err", "crash"}, PBad: 30, PDisabled: 30, PDeployFail: 10, MaxOutputs: 2, ErrOutput: true},
-		{Name: "c03-plain", MinSteps: 2, MaxSteps: 6, Durs: someDurs, PWaitFor: 50, PDeploySlow: 40, MaxOutputs: 2, DeepExpr: true},
+		{Name: "c03-plain", PStopFalse: 20, MinSteps: 2, MaxSteps: 6, Durs: someDurs, PWaitFor: 50, PDeploySlow: 40, MaxOutputs: 2, DeepExpr: true},
 	}
 	register(&PropDef{ID: "C03",
 		Gen:   func(t *rapid.T) *Case { return genS1(t, "C03", c03, rapid.IntRange(0, 3).Draw(t, "adv") > 0) },
@@ -135,7 +135,7 @@ func init() {
 	// ---- C04: a step never executes if a prerequisite failed, it is disabled or stopped first ----
 	c04 := []*ir.Profile{
 		{Name: "c04-failing", MinSteps: 2, MaxSteps: 6, Durs: someDurs, Modes: allBad, PBad: 45, PDeployFail: 25, PWaitFor: 60, PErrPathRef: 20, MaxOutputs: 3, ErrOutput: true},
-		{Name: "c04-disabled", PLiteralFalse: 30, MinSteps: 2, MaxSteps: 5, Durs: someDurs, Modes: []string{"err"}, PBad: 20, PDisabled: 70, PWaitFor: 50, MaxOutputs: 3, ErrOutput: true, PErrPathRef: 30},
+		{Name: "c04-disabled", PStopFalse: 15, PLiteralFalse: 30, MinSteps: 2, MaxSteps: 5, Durs: someDurs, Modes: []string{"err"}, PBad: 20, PDisabled: 70, PWaitFor: 50, MaxOutputs: 3, ErrOutput: true, PErrPathRef: 30},
 	}
 	c04 = append(c04, &ir.Profile{Name: "c04-stop-before-start", MinSteps: 0, MaxSteps: 2, Durs: []int64{0, 5}, StopBeforeStart: true})
 	register(&PropDef{ID: "C04",
